@@ -41,7 +41,7 @@ func (c10) Budget(tier string) core.Budget {
 	if tier == "thorough" {
 		return core.Budget{Runs: 2000000, WallCap: 20 * time.Minute}
 	}
-	return core.Budget{Runs: 8000, WallCap: 45 * time.Second}
+	return core.Budget{Runs: 6000, WallCap: 45 * time.Second}
 }
 
 type failTpl struct {
@@ -79,6 +79,10 @@ var failTemplates = []failTpl{
 		return `(() => { hh := x => { println("hh", x); 7 % x }; hh(3) + hh(0) })()`
 	}},
 	{"mod0-toplevel", "panic:runtime", func(_ *core.Rng, _ []string) string { return `5 % (1 - 1)` }},
+	// the next three fail before the loop body runs, but only with registers enabled (the scenario uses them then only)
+	{"regonly-loopvar-modified", "lang-error", func(_ *core.Rng, _ []string) string { return `for i = 3 { i++ }` }},
+	{"regonly-function-literal-in-loop", "lang-error", func(_ *core.Rng, _ []string) string { return `for i = 3 { (x => x + 1)(i) }` }},
+	{"regonly-loopvar-postfix-nested", "lang-error", func(_ *core.Rng, _ []string) string { return `for i = 2 { for j = 2 { j-- } }` }},
 	{"depth-self", "panic:guard-depth", func(_ *core.Rng, _ []string) string { return `(x => self(x + 1))(0)` }},
 	{"depth-self-in-loop", "panic:guard-depth", func(_ *core.Rng, _ []string) string {
 		return `(() => { rr := x => self(x + 1); for i = 3 { rr(i) } })()`
@@ -183,6 +187,9 @@ func (c10) Generate(r *core.Rng, run int, tier string) *core.History {
 		switch k := fr.Intn(10); {
 		case k < 4:
 			tpl = core.Pick(fr, failTemplates)
+			for strings.HasPrefix(tpl.key, "regonly-") && h.Flags["noreg"] {
+				tpl = core.Pick(fr, failTemplates)
+			}
 		case k < 7:
 			tpl = core.Pick(fr, deadlineTemplates)
 			f = &core.Fault{Kind: "deadline"}
@@ -208,16 +215,26 @@ func (c10) Generate(r *core.Rng, run int, tier string) *core.History {
 		}
 		return core.Event{Ev: "input", Tag: "fail", Key: tpl.key, Text: text, Fault: f}
 	}
+	addFail := func() {
+		ev := mkFail()
+		h.Events = append(h.Events, ev)
+		if strings.HasPrefix(ev.Key, "regonly-") || fr.Bool(.1) {
+			// any multiplicity: leaks that only show after several failures (8 register slots, depth levels)
+			for k := 7 + fr.Intn(4); k > 0; k-- {
+				h.Events = append(h.Events, ev)
+			}
+		}
+	}
 	pi := 0
 	for i, in := range bg.Inputs {
 		for pi < len(pos) && pos[pi] == i {
-			h.Events = append(h.Events, mkFail())
+			addFail()
 			pi++
 		}
 		h.Events = append(h.Events, core.Event{Ev: "input", Tag: "base", Stmts: in})
 	}
 	for pi < len(pos) {
-		h.Events = append(h.Events, mkFail())
+		addFail()
 		pi++
 	}
 	// probes (DESIGN 5.6): output reaches the writer, a function that prints, a counted loop,
@@ -227,6 +244,7 @@ func (c10) Generate(r *core.Rng, run int, tier string) *core.History {
 		`println("probe", 1 + 1)`,
 		`func pr9(x) { println("pr9", x); x * 2 }` + "\n" + `pr9(21)`,
 		`for i = 3 { println("loop", i) }`,
+		`for pv9 = 2 { println("pv", pv9) }` + "\n" + `println(catch(pv9).err)`,
 		fmt.Sprintf(`(x => if x <= 0 { 0 } else { 1 + self(x - 1) })(%d)`, D),
 	}
 	if len(g.Vars) > 0 {
